@@ -72,7 +72,8 @@ def string_job(job):
                 else: out.append(c)
             return out
         strs = [mk(s) for s in spec]
-        mva = logic.mvarray(*strs)
+        given = [list(s) for s in strs]              # what the caller hands over (lists of characters); converted twice below
+        mva = logic.mvarray(*given)
         exp = [[(expected_code(eng, c) if isinstance(c, SymChar) else next((k for k, a in ALIAS.items() if c in a), 1)) for c in s] for s in strs]
         bad = None
         if any(e is None for row in exp for e in row): bad = 'the code of a character is not determined by the path taken through interpret()'
@@ -81,6 +82,7 @@ def string_job(job):
             if len(strs) == 1: want = want[0]                      # one string: 1-D, patterns... (single vector)
             else: want = want.T                                   # several strings: last axis = patterns, second-to-last = positions (signals)
             if mva.shape != want.shape or not np.array_equal(mva, want): bad = f'mvarray gives {mva.tolist()} (shape {mva.shape}), documented {want.tolist()} (shape {want.shape})'
+            elif not np.array_equal(logic.mvarray(*given), want): bad = 'converting the same list object a second time gives a different array (second conversion)'
             else:
                 try:
                     txt = logic.mv_str(mva)
@@ -129,6 +131,12 @@ def replay_string(data):
     want = np.array([[doc_code(c) for c in s] for s in strs], dtype=np.uint8)
     want = want[0] if len(strs) == 1 else want.T
     if mva.shape != want.shape or not np.array_equal(mva, want): return True, f'mvarray{tuple(strs)} = {mva.tolist()}, documented {want.tolist()}'
+    try:
+        lst = [list(s) for s in strs]
+        first = logic.mvarray(*lst); second = logic.mvarray(*lst); bp = logic.mv_to_bp(logic.mvarray(*lst)) if len(strs) > 1 else None
+        if not np.array_equal(first, want) or not np.array_equal(second, want):
+            return True, f'second conversion of the same list object: mvarray gives {first.tolist()} then {second.tolist()}, documented {want.tolist()}'
+    except Exception as e: return True, f'mvarray on a list of characters raised {type(e).__name__}: {e}'
     try: txt = logic.mv_str(mva)
     except Exception as e: return True, f'mv_str raised {type(e).__name__}: {e}'
     wtxt = '\n'.join(''.join(RENDER[doc_code(c)] for c in s) for s in strs)
@@ -190,9 +198,10 @@ def pack_job(job):
             a = sym_array(shape, w)
             sa = symnp.SymArr(a, dt)
             u = logic.unpackbits(sa)
+            native = dt.byteorder in '=|'
             if u.shape != tuple(shape) + (w,): bad.append(f'unpackbits shape {u.shape}')
             else:
-                for idx in np.ndindex(tuple(shape)):
+                for idx in (np.ndindex(tuple(shape)) if native else []):          # bit positions are documented for items in native storage order
                     for k in range(w):
                         rep.counts['obligations'] += 1
                         if valid(symnp.bit1(u[idx + (k,)]) == z3.Extract(k, k, a[idx])): rep.counts['discharged'] += 1
@@ -203,8 +212,8 @@ def pack_job(job):
                 if ok: rep.counts['discharged'] += 1
                 else: bad.append(f'packbits(unpackbits(x), {dt}) != x')
                 # truncated / padded input: m bits available
-                part = logic.packbits(u[..., :m], dt)
-                for idx in np.ndindex(tuple(shape)):
+                part = logic.packbits(u[..., :m], dt) if native else None
+                for idx in (np.ndindex(tuple(shape)) if native else []):
                     x = a[idx]
                     if m >= w: exp = x
                     elif dt.kind == 'i': exp = z3.SignExt(w - m, z3.Extract(m - 1, 0, x))
@@ -254,10 +263,14 @@ def replay_pack(data):
             return False, 'ok'
         dt = np.dtype(data['spec'][0]); shape = tuple(data['spec'][1]); m = data['spec'][2]; w = 8 * dt.itemsize
         info = np.iinfo(dt)
+        native = dt.byteorder in '=|'
         for _ in range(20):
-            a = rng.integers(info.min, info.max, shape, dtype=dt, endpoint=True)
+            a = rng.integers(info.min, info.max, shape, dtype=dt.newbyteorder('='), endpoint=True).astype(dt)
             u = logic.unpackbits(a)
             if u.shape != shape + (w,): return True, f'unpackbits shape {u.shape}'
+            if not native:
+                if not np.array_equal(logic.packbits(u, dt), a): return True, f'packbits(unpackbits(x), {dt.str}) != x for {a.tolist()}'
+                continue
             for idx in np.ndindex(shape):
                 for k in range(w):
                     if int(u[idx + (k,)]) != (int(a[idx]) >> k) & 1: return True, f'unpackbits bit {k} of {int(a[idx])}'
@@ -424,6 +437,8 @@ def jobs(tier):
         w = 8 * np.dtype(dt).itemsize
         for shape, m in (((2,), 3), ((1, 2), w - 1), ((2,), w + 3), ((1,), 1)):
             J.append(('pack', (dt, shape, m)))
+    for dt in ('>u2', '>i2', '>u4', '>i8'):          # items stored in non-native byte order: the helpers still invert each other
+        J.append(('pack', (dt, (2,), 8 * np.dtype(dt).itemsize)))
     return J
 
 
